@@ -314,19 +314,37 @@ func (a Float) M__rdivmod__(other Object) (Object, Object, error) {
 	return NotImplemented, None, nil
 }
 
+// Raises a to the power of b
+func floatPow(a, b Float) (Object, error) {
+	x, y := float64(a), float64(b)
+	finite := !math.IsInf(x, 0) && !math.IsInf(y, 0) && !math.IsNaN(y)
+	if x == 0 && y < 0 && finite {
+		return nil, ExceptionNewf(ZeroDivisionError, "0.0 cannot be raised to a negative power")
+	}
+	if x < 0 && finite && y != math.Floor(y) {
+		// a negative number to a fractional power is complex
+		return Complex(complex(x, 0)).M__pow__(Complex(complex(y, 0)), None)
+	}
+	r := math.Pow(x, y)
+	if math.IsInf(r, 0) && finite {
+		return nil, ExceptionNewf(OverflowError, "(34, 'Numerical result out of range')")
+	}
+	return Float(r), nil
+}
+
 func (a Float) M__pow__(other, modulus Object) (Object, error) {
 	if modulus != None {
 		return NotImplemented, nil
 	}
 	if b, ok := convertToFloat(other); ok {
-		return Float(math.Pow(float64(a), float64(b))), nil
+		return floatPow(a, b)
 	}
 	return NotImplemented, nil
 }
 
 func (a Float) M__rpow__(other Object) (Object, error) {
 	if b, ok := convertToFloat(other); ok {
-		return Float(math.Pow(float64(b), float64(a))), nil
+		return floatPow(b, a)
 	}
 	return NotImplemented, nil
 }
